@@ -18,7 +18,7 @@ from core import hexf, unhex
 META = dict(
     level="exploration",
     technique="exhaustive enumeration of all 256 sign patterns per base point and tan(beta), metamorphic oracle: pattern vs. complete flip on every public and helper quantity",
-    text="For 8 realistic on-shell base points (three independent generations, all trilinears non-zero) plus hierarchy points that realise every one of the 120 orderings of (|mu|,|M1|,|M2|,m_smuonL,m_smuonR) (so that each is the lightest / heaviest scale somewhere, staus following M2 and mu) with the gluino below or above all squarks, x tan(beta) in {1.5,10,80} (thorough: 6 values), all 256 sign patterns of (mu,M1,M2,M3,At,Ab,Atau,Amu) are evaluated with calculate_masses(); each pattern is compared with its complete flip on ~300 numbers: all 1L/2L totals and components with and without tan(beta) resummation, the leading-log sub-contributions, Delta_mu/tau/b, tan_beta_cor, the couplings AAC/AAN/BBC/BBN, x_im/x_k, the 2L(a) lambda matrices, delta_g1.., uncertainties, all DR-bar and pole masses, resummed Yukawas (relative 1e-9). Pairs where the spectrum calculation throws are counted and skipped (both members must then throw the same way). Each flipped partner is additionally produced a second way: the already evaluated model of the original point (a copy of it; thorough: also the object itself) gets the flipped mu, M_i, A_f through the public setters and calculate_masses() is called again; the same comparison is required. Says nothing about magnitudes off the base points.",
+    text="For 8 realistic on-shell base points (three independent generations, all trilinears non-zero) plus hierarchy points that realise every one of the 120 orderings of (|mu|,|M1|,|M2|,m_smuonL,m_smuonR) (so that each is the lightest / heaviest scale somewhere, staus following M2 and mu) with the gluino below or above all squarks, x tan(beta) in {1.5,10,80} (thorough: 6 values), all 256 sign patterns of (mu,M1,M2,M3,At,Ab,Atau,Amu) are evaluated with calculate_masses(); each pattern is compared with its complete flip on ~300 numbers: all 1L/2L totals and components with and without tan(beta) resummation, the leading-log sub-contributions, Delta_mu/tau/b, tan_beta_cor, the couplings AAC/AAN/BBC/BBN, x_im/x_k, the 2L(a) lambda matrices, delta_g1.., uncertainties, all DR-bar and pole masses, resummed Yukawas (relative 1e-9). Pairs where the spectrum calculation throws are counted and skipped (both members must then throw the same way). Each flipped partner is additionally produced a second way: the already evaluated model of the original point (a copy of it; thorough: also the object itself) gets the flipped mu, M_i, A_f through the public setters and calculate_masses() is called again; the same comparison is required. A hierarchy dimension is enumerated as well: for one base point per ordering class (5 quick / 20 thorough) every single dimensionful parameter (mu, M1, M2, M3, MA, each of the 15 soft masses, each of the 9 A_f) and every pair among (M1, M2, mu) is scaled by 10^e, e in {2,..,7} (thorough {1,2,3,3.5,4,4.5,5,6,7,8,9,10}), tan(beta) in {2,10,50}, every sign pattern of (mu, M1, M2) on both members of the pair; same comparison. Non-finite results that are identical on both members are reported under their own key. What the unchanged library does not fulfil there is listed in known findings (heavy M2, non-finite results for mass ratios beyond 1e8), not excluded. Says nothing about magnitudes off the base points.",
     note="trusted: field-redefinition invariance of the MSSM Lagrangian (the oracle is the relation itself, no reference numbers); mixing matrices themselves are basis dependent and not compared",
     design_ref="3/C06")
 
@@ -50,6 +50,145 @@ def ordering_class(base, p):
     sq = [b["msq"][2], b["msu"][2], b["msd"][2]]
     glu = "glu<sq3" if b["M3"] < min(sq) else ("glu>sq3" if b["M3"] > max(sq) else "glu~sq3")
     return v[0][1], v[-1][1], "<=".join(n for _, n in v), glu
+
+
+# ------------------------------------------------------------------ hierarchy dimension
+# The property's domain has no upper bound on mass ratios.  Shortcuts for heavy particles ("if M > 1e4 m skip
+# the term") are keyed on one parameter being orders of magnitude above the others - with a forgotten abs such a
+# shortcut is taken by one member of a flip pair only.  So: for a set of base ordering classes every single
+# dimensionful parameter and every pair of gaugino / higgsino parameters is scaled by 10^e, every sign pattern of
+# (mu, M1, M2) on both members of the pair, tan(beta) in {2, 10, 50}.
+HIER_E_QUICK = [2.0, 3.0, 4.0, 5.0, 6.0, 7.0]                       # at least one value in every decade
+HIER_E_THOROUGH = [1.0, 2.0, 3.0, 3.5, 4.0, 4.5, 5.0, 6.0, 7.0, 8.0, 9.0, 10.0]
+HIER_TBS = [2.0, 10.0, 50.0]
+SOFT = ["ml2", "me2", "mq2", "mu2", "md2"]
+TRIL = ["Ae", "Ad", "Au"]
+SCALED_SETS = [("Mu",), ("M1",), ("M2",), ("M3",), ("MA",)] + [("%s[%d]" % (k, i),) for k in SOFT for i in range(3)] \
+    + [("%s[%d]" % (k, i),) for k in TRIL for i in range(3)] + [("M1", "M2"), ("M1", "Mu"), ("M2", "Mu")]
+HIER_PATTERNS = [(1.0, s1, s2, 1.0, 1.0, 1.0, 1.0, 1.0) for s1 in (1.0, -1.0) for s2 in (1.0, -1.0)]   # partner = complete flip
+
+
+def hier_bases(quick):
+    """ordering classes of (|mu|,|M1|,|M2|,m_smuL,m_smuR): quick one per lightest parameter (5), thorough one per
+    (lightest, heaviest) (20); gluino below / above the squarks alternating"""
+    out, seen = [], set()
+    for i, name in enumerate(sorted(mssmrun.HIER_POINTS)):
+        lo, hi = ordering_class(name, None)[:2]
+        key = lo if quick else (lo, hi)
+        want_g = "g%d" % (len(seen) % 2)
+        if key in seen or not name.endswith(want_g):
+            continue
+        seen.add(key)
+        out.append(name)
+    return out
+
+
+def hier_point(base, tb, signs, sset, f):
+    p = mssmrun.os_point(base, tb, signs)
+    for nm in sset:
+        if "[" in nm:
+            k, i = nm[:-3], int(nm[-2])
+            p[k][i] *= (f * f if k in SOFT else f)
+        else:
+            p[nm] *= f
+    return p
+
+
+def size_class(rel):
+    import math
+    if not rel < float("inf"):
+        return "nonfinite"
+    d = min(-1, max(-9, int(math.floor(math.log10(rel))))) if rel > 0 else -9
+    return "1e%d..1e%d" % (d, d + 1)
+
+
+def col_names(lay):
+    out = [None] * lay["__n__"][0]
+    for n, (off, ln) in lay.items():
+        for c in range(off, off + ln):
+            out[c] = n
+    return out
+
+
+CHI0 = ("Chi0", "amu1L", "amu2L", "unc0L", "unc1L", "AAN", "BBN", "x_im", "MChi")
+
+
+def qclass(n):
+    """chi0: quantities that contain the neutralino sector (its 4x4 Takagi factorisation); other: the rest"""
+    b = n[3:] if n.startswith("nr.") else n
+    if b in ("amu1L", "amu1L_nonres", "amu2L", "amu2L_nonres", "unc0L", "unc1L", "AAN", "BBN", "x_im", "MChi", "pole_MChi") or "Chi0" in b:
+        return "chi0"
+    return "other"
+
+
+def root_cause(qs):
+    """first non-finite quantity in the order masses -> couplings -> contributions (names the sector that broke)"""
+    for pref in ("MS", "Mhh", "MAh", "MChi", "MCha", "x_", "lambda", "tan_alpha", "delta", "amu1L", "amu2L", "unc"):
+        for q in qs:
+            if q.startswith(pref):
+                return q
+    return qs[0]
+
+
+def _hier_worker(job):
+    base, tb, e = job
+    f = 10.0 ** e
+    lay = mssmrun.layout("plain")["O"]
+    cases = [(sset, p) for sset in SCALED_SETS for p in HIER_PATTERNS]
+    pts = []
+    for sset, p in cases:
+        pts.append(hier_point(base, tb, p, sset, f))
+        pts.append(hier_point(base, tb, tuple(-x for x in p), sset, f))
+    res = mssmrun.run_os(pts, "plain")
+    fails, skipped, reasons, worst, compared = [], 0, {}, {}, []
+    ok = []
+    for i, (sset, p) in enumerate(cases):
+        a, b = res[2 * i], res[2 * i + 1]
+        if a[0] != "OK" or b[0] != "OK":
+            if a[0] != b[0] or a[1:] != b[1:]:
+                fails.append((sset, p, "status", "spectrum status differs between a point and its flip: %r vs %r"
+                              % (a[:3] if a[0] != "OK" else "OK", b[:3] if b[0] != "OK" else "OK")))
+            skipped += 1
+            r = a if a[0] != "OK" else b
+            k = "%s: %s" % (r[1], r[2][:50])
+            reasons[k] = reasons.get(k, 0) + 1
+            continue
+        ok.append(i)
+    if ok:
+        A = np.stack([res[2 * i][1] for i in ok])
+        B = np.stack([res[2 * i + 1][1] for i in ok])
+        # non-finite results: identical on both members (the symmetry is not what fails there, the evaluation is:
+        # reported under its own key) or different (a violation); the finite quantities are compared as usual
+        nfa, nfb = ~np.isfinite(A), ~np.isfinite(B)
+        names = col_names(lay)
+        for r in np.nonzero((nfa | nfb).any(axis=1))[0]:
+            sset, p = cases[ok[r]]
+            cols = np.nonzero(nfa[r] | nfb[r])[0]
+            same = all((np.isnan(A[r, c]) and np.isnan(B[r, c])) or A[r, c] == B[r, c] for c in cols)
+            qs = sorted({names[c] for c in cols if not names[c].startswith("nr.")}) or sorted({names[c] for c in cols})
+            if same:
+                # identical non-finite values on both members: the flip symmetry holds (C06 says nothing about
+                # finiteness; that is C11/C16); counted in the evidence, not a failure of C06
+                k = "nonfinite-identical: %s %s" % (root_cause(qs), "+".join(sset) if isinstance(sset, (list, tuple)) else sset)
+                reasons[k] = reasons.get(k, 0) + 1
+                continue
+            fails.append((sset, p, "nonfinite-asymmetric:" + root_cause(qs),
+                          "non-finite results DIFFERENT on the two members: %s" % ", ".join("%s=%r/%r" % (names[c], A[r, c], B[r, c]) for c in cols[:6])))
+        A = np.where(nfa | nfb, 0.0, A)
+        B = np.where(nfa | nfb, 0.0, B)
+        bads, worst = compare_block(lay, A, B)
+        for i, bad in zip(ok, bads):
+            sset, p = cases[i]
+            compared.append((sset, p))
+            seen = set()
+            for n, j, x, y, rel in bad:
+                if n in seen:
+                    continue
+                seen.add(n)
+                fails.append((sset, p, "%s:%s:%s" % (qclass(n), n, size_class(rel)),
+                              "%s[%d] = %r at signs(mu,M1,M2)=%r but %r at the completely flipped point (rel. diff %.3e)"
+                              % (n, j, x, list(p[:3]), y, rel)))
+    return base, tb, e, fails, skipped, reasons, worst, compared
 
 
 def _worker(job):
@@ -149,6 +288,39 @@ def run(ctx):
                          {"base": base, "tb": hexf(tb), "signs": list(p)})
             if compared:
                 ctx.sample({"base": base, "tb": tb, "signs": list(compared[len(compared) // 2]), "pairs_compared": len(compared), "pairs_skipped": skipped})
+    # hierarchy dimension
+    es = HIER_E_QUICK if ctx.quick else HIER_E_THOROUGH
+    hb = hier_bases(ctx.quick)
+    hjobs = [(b, tb, e) for b in hb for tb in HIER_TBS for e in es]
+    hcmp, hskip, hreasons, hworst, hby = 0, 0, {}, {}, {}
+    with mp.Pool(min(16, os.cpu_count() or 4)) as pool:
+        for base, tb, e, fails, skipped, sr, w, compared in pool.imap(_hier_worker, hjobs):
+            ctx.evals(2 * len(SCALED_SETS) * len(HIER_PATTERNS))
+            hcmp += len(compared)
+            hskip += skipped
+            for k, v in sr.items():
+                hreasons[k] = hreasons.get(k, 0) + v
+            for k, v in w.items():
+                if v > hworst.get(k, (0.0,))[0]:
+                    hworst[k] = (v, "e=%g" % e)
+            hby["1e%g" % e] = [hby.get("1e%g" % e, [0, 0])[0] + len(compared), hby.get("1e%g" % e, [0, 0])[1] + skipped]
+            for sset, p in compared:
+                ctx.nontrivial(("hier", base, tb, e, sset, p[:3]))
+            for sset, p, n, what in fails:
+                t = n.split(":")
+                key = ("hier:%s:%s:1e%g" % (":".join(t[:-1]), "+".join(sset), e) + ":" + t[-1]) if len(t) == 3 else "hier:%s:%s:1e%g" % (":".join(t), "+".join(sset), e)
+                ctx.fail(key,
+                         "%s  [hierarchy: %s x 1e%g on base %s, tan(beta)=%g]" % (what, "+".join(sset), e, base, tb),
+                         {"hier": {"base": base, "tb": hexf(tb), "e": hexf(e), "sset": list(sset), "signs": list(p)}})
+    ctx.note("hierarchy_base_classes", hb)
+    ctx.note("hierarchy_scaled_parameter_sets", len(SCALED_SETS))
+    ctx.note("hierarchy_exponents", es)
+    ctx.note("hierarchy_pairs_compared", hcmp)
+    ctx.note("hierarchy_pairs_skipped(threw/problem)", hskip)
+    ctx.note("hierarchy_pairs_compared/skipped_by_factor", hby)
+    ctx.note("hierarchy_skip_reasons", hreasons)
+    ctx.note("hierarchy_largest_relative_differences",
+             {k: [float("%.3g" % v[0]), v[1]] for k, v in sorted(hworst.items(), key=lambda kv: -kv[1][0])[:10]})
     nq = sum(1 for n in lay if n not in SKIP and n != "__n__")
     ctx.note("pairs_total", len(jobs) * 128)
     ctx.note("base_points", len(bases))
@@ -188,6 +360,29 @@ def replay(ctx, path):
     d = json.load(open(path))
     dd = d["data"]
     mssmrun.exe("plain")
+    if "hier" in dd:
+        h = dd["hier"]
+        base, tb, e, sset, p = h["base"], unhex(h["tb"]), unhex(h["e"]), tuple(h["sset"]), tuple(float(x) for x in h["signs"])
+        global SCALED_SETS, HIER_PATTERNS
+        SCALED_SETS, HIER_PATTERNS = [sset], [p]
+        _, _, _, fails, skipped, reasons, _, _ = _hier_worker((base, tb, e))
+        for ss, pp, n, what in fails[:10]:
+            print("replay: [%s] %s" % (n, what))
+        if skipped:
+            print("replay: pair skipped now (%r)" % (reasons,))
+        # a stored case is a violation again only if a failure outside the known findings is still there
+        bad = []
+        for ss, pp, n, what in fails:
+            t = n.split(":")
+            key = ("hier:%s:%s:1e%g" % (":".join(t[:-1]), "+".join(ss), e) + ":" + t[-1]) if len(t) == 3 else "hier:%s:%s:1e%g" % (":".join(t), "+".join(ss), e)
+            import fnmatch
+            if not any(fnmatch.fnmatchcase(key, f["key"]) for f in ctx.findings):
+                bad.append(key)
+        if bad:
+            print("VIOLATION property=C06 replay=%s" % path)
+            return 1
+        print("replay: holds now (hierarchy pair agrees to 1e-9 apart from known findings)")
+        return 0
     lay = mssmrun.layout("plain")["O"]
     p = tuple(float(x) for x in dd["signs"])
     q = tuple(-x for x in p)
